@@ -94,7 +94,7 @@ def run_shard(spec, emit):
     schemathesis.graphql.scalar("Token", st.from_regex(r"\Atok_[a-z]{4}\Z").map(nodes.String))
     n_schemas = 6 if tier == "quick" else 60
     n_draws = 25 if tier == "quick" else 60
-    deadline = time.monotonic() + (80 if tier == "quick" else 2400)
+    deadline = time.monotonic() + (80 if tier == "quick" else 300)
     samples = 0
     for s_idx in range(n_schemas):
         if time.monotonic() > deadline:
